@@ -340,6 +340,21 @@ class ConnRerouteFlagDelegate {
         std::list<std::pair<ConnRef *, bool> > m_mapping;
 };
 
+#ifdef ADAPTAGRAMS_VERIF
+// Verification hook (compiled only with -DADAPTAGRAMS_VERIF; without the guard
+// this header, connector.h, router.cpp and connector.cpp are unchanged).
+// When verifRerouteSink is non-null, Router::rerouteAndCallbackConnectors()
+// reports, once per connector in connRefs order, the state that decides 
+// whether that connector is about to be rerouted: this is called right after
+// the reroute flags raised through visibility edges have been delivered and
+// before the static orthogonal visibility graph is regenerated.
+#define ADAPTAGRAMS_VERIF_REROUTE_HOOK 1
+typedef void (*VerifRerouteSink)(const Router *router, const ConnRef *conn,
+        bool needsRerouteFlag, bool falsePath, double routeDist,
+        bool staticOrthogonalGraphInvalidated);
+extern AVOID_EXPORT VerifRerouteSink verifRerouteSink;
+#endif
+
 static const double zeroParamValue = 0;
 static const double chooseSensibleParamValue = -1;
 
